@@ -189,6 +189,19 @@ func (a Agg) Eval(pts []*Pt) (float64, bool) {
 			m = math.Max(m, v)
 		}
 		return m, true
+	case "P50":
+		// PERCENTILE(v, 50, lo, hi, 0) over integer-valued points: HDR histogram's
+		// ValueAtQuantile with unit-sized buckets
+		sorted := append([]float64(nil), vals...)
+		sort.Float64s(sorted)
+		k := int(0.5*float64(len(sorted)) + 0.5)
+		if k < 1 {
+			k = 1
+		}
+		if k > len(sorted) {
+			k = len(sorted)
+		}
+		return sorted[k-1], true
 	case "AVG", "WAVG":
 		t, c := 0.0, 0.0
 		for i, v := range vals {
@@ -210,6 +223,9 @@ func (a Agg) SQL() string {
 	}
 	if a.Kind == "WAVG" {
 		return fmt.Sprintf("WAVG(%s, %s)", inner, a.W)
+	}
+	if a.Kind == "P50" {
+		return fmt.Sprintf("PERCENTILE(%s, 50, %v, %v, 0)", a.Val, a.Lo, a.Hi)
 	}
 	return fmt.Sprintf("%s(%s)", a.Kind, inner)
 }
